@@ -5,6 +5,7 @@ import Driver.HsD
 import Driver.CliD
 import Driver.StreamD
 import Driver.LifeD
+import Driver.PendD
 /-!
 # `limedriver` — line protocol in front of the executable model
 
@@ -29,6 +30,7 @@ def dispatch (j : Json) : R Json := do
   | "cliwants" => CliD.handleWants j
   | "clijudge" => CliD.handleJudge j
   | "build" => CodecD.handleBuild j
+  | "pend" => PendD.handle j
   | "life" => LifeD.handle j
   | "wloop" => StreamD.handleWloop j
   | "frames" => StreamD.handleFrames j
